@@ -18,6 +18,7 @@ import simpy
 import logging
 import copy
 import math
+import zlib
 import numpy as np
 from enum import Enum
 
@@ -76,7 +77,10 @@ class Task(object):
         return str(self.id)
 
     def __hash__(self):
-        return hash(self.id)
+        # hash(str) is randomised per interpreter process (PYTHONHASHSEED) and
+        # the scheduling algorithms iterate over sets of tasks: use a hash
+        # that is the same in every process so that runs are reproducible.
+        return zlib.crc32(str(self.id).encode())
 
     def do_work(self, env, machine, predecessor_allocations=None):
         """
